@@ -503,6 +503,7 @@ def C18(ctx):
     wps.rule_dual(ctx, m)
     pyshape.rule_lc_marks(ctx, m)
     pyshape.rule_lc_trace_stop(ctx, m)
+    pyshape.rule_lc_window_mask(ctx, m)
     cshape.rule_sibling_skeleton(ctx, m, ['dtw_warping_paths_affinity_ndim'])
     wps.rule_wps_readers(ctx, m, affinity=True)
     # cells below the diagonal are blanked (only_triu) inside the row they belong to
